@@ -42,6 +42,7 @@ THEOREMS = [P + n for n in [
     "pushdown_dnf_common_predicate", "dnf_implies_disjunction_of_common", "pushdown_dnf_single_branch_unsound",
     "pushdown_projections_preserves", "pushdown_projections_needs_no_distinct", "projection_guards_present",
     "append_cte_keeps_scoping", "eliminate_subqueries_forward_reference_witness",
+    "window_commutes_with_filter_on_partition_key", "filter_below_other_window_unsound", "window_blocks_unconditionally",
     "setop_prune_by_position_preserves", "setop_prune_by_name_counterexample", "setop_right_operand_by_ordinal",
     "conj3_eq_of_same_values", "uniq_sort_sound_of_key_injective", "uniq_sort_key_collision_witness", "gen_handlers_cover_all_args",
     "rename_with_fresh_cache_renames_all", "rename_all_leaves_no_old", "rename_with_stale_cache_witness",
@@ -158,6 +159,7 @@ def translate(chk: Check) -> str:
     if not found:
         changed("SELECT-node guard of nodes_for_predicate not found")
     nfp_txt = ast.unparse(nfp) if nfp is not None else ""
+    window_uncond = "has_window_expression = any((select for select in node.selects if find_in_scope(select, exp.Window)))\n" in nfp_txt + "\n"
     sided_blocks = bool(re.search(r"if node\.side:\n\s+pushable_source = source if node\.side == 'RIGHT' and \(?not isinstance\(source, exp\.Table\)\)? else None\n\s+if not pushable_source:\n\s+return \{\}", nfp_txt))
     ppf = _fn(pp, "pushdown_predicates")
     ppf_txt = ast.unparse(ppf) if ppf is not None else ""
@@ -405,6 +407,7 @@ def translate(chk: Check) -> str:
         f"def reorderRequiresNoSide : Bool := {b(reorder)}",
         "def projKeepAll : List ProjAtom := " + lst(proj_atoms),
         f"def setOpRightByOrdinal : Bool := {b(by_ordinal)}",
+        f"def windowBlocksUnconditionally : Bool := {b(window_uncond)}",
         "def mergeCacheClears : List (String × String) := " + lst('("%s", "%s")' % c for c in cache_clears),
         "def genHandlerMissing : List (String × List String) := " + lst('("%s", %s)' % (k_, lst('"%s"' % a for a in m_)) for k_, m_ in gen_missing),
         "end SqlglotModel.Generated.C03",
@@ -1162,6 +1165,30 @@ class NestGen:
         return f"SELECT m.a AS ma, m.b AS mb, {c}.a AS ca, {c}.b AS cb FROM {frm}{where}", False
 
 
+class WinGen:
+    """a derived table with 2-3 window functions over DIFFERENT partitions (one may be unpartitioned) whose outputs
+    the outer query keeps, filtered from outside on each column"""
+
+    def __init__(self, rng):
+        self.rng = rng
+
+    def query(self):
+        r = self.rng
+        t = r.choice("xyz")
+        parts = [f"PARTITION BY {t}.a", f"PARTITION BY {t}.b", "", f"PARTITION BY {t}.a, {t}.b"]
+        r.shuffle(parts)
+        fns = ["COUNT(*)", f"SUM({t}.b)", f"MAX({t}.a)", f"COUNT({t}.b)"]
+        n = r.choice([2, 2, 3])
+        wins = [f"{r.choice(fns)} OVER ({parts[i]}) AS w{i}" for i in range(n)]
+        inner = f"SELECT {t}.a AS k, {t}.b AS v, " + ", ".join(wins) + f" FROM {t}"
+        col = r.choice(["k", "v"] + [f"w{i}" for i in range(n)])
+        pred = f"p.{col} {r.choice(CMP)} {r.choice([0, 1, 2, 3])}" if r.random() < 0.8 else f"p.{col} IS NOT NULL"
+        outs = ", ".join([f"p.k AS c0", f"p.v AS c1"] + [f"p.w{i} AS c{i + 2}" for i in range(n)])
+        if r.random() < 0.3:
+            return f"WITH p AS ({inner}) SELECT {outs} FROM p WHERE {pred}", False
+        return f"SELECT {outs} FROM ({inner}) AS p WHERE {pred}", False
+
+
 WITNESSES = [
     # necessity witnesses of Properties/C03.lean and DESIGN §6 rows as concrete SQL + data
     ("SELECT x.a AS xa, y.a AS ya FROM (SELECT * FROM x) AS x FULL JOIN y ON x.a = y.a WHERE x.b > 0", {"x": [], "y": [[1, 1]], "z": []}),
@@ -1196,6 +1223,10 @@ WITNESSES = [
     ("SELECT p.a AS pa FROM (SELECT x.a AS a, x.b AS b FROM x UNION ALL (SELECT y.a, y.b FROM y UNION SELECT z.a, z.b FROM z)) AS p", {"x": [[1, 1]], "y": [[1, 1], [2, 5]], "z": [[2, 5]]}),
     ("SELECT p.a AS pa FROM (SELECT x.a AS a, x.b AS b FROM x) AS p CROSS JOIN y WHERE (y.b * p.a) IS NULL OR p.a BETWEEN 0 AND 0", {"x": [[None, 7], [1, 1]], "y": [[1, 1]], "z": []}),
     ("WITH c1 AS (SELECT z.a AS a, z.b AS b FROM z UNION ALL SELECT x.a, x.b FROM x) SELECT p.b AS c1 FROM x AS p LEFT JOIN c1 AS q ON p.b = q.b", {"x": [[3, 4]], "y": [], "z": [[1, 4]]}),
+    # several windows with different partitions: a filter on one window's partition key must not run below the others
+    ("SELECT p.k AS c0, p.w0 AS c1, p.w1 AS c2 FROM (SELECT x.a AS k, COUNT(*) OVER (PARTITION BY x.a) AS w0, COUNT(*) OVER () AS w1 FROM x) AS p WHERE p.k = 1", {"x": [[1, 1], [1, 2], [2, 3]], "y": [], "z": []}),
+    ("SELECT p.k AS c0, p.w0 AS c1, p.w1 AS c2 FROM (SELECT x.a AS k, SUM(x.b) OVER (PARTITION BY x.a) AS w0, SUM(x.b) OVER (PARTITION BY x.b) AS w1 FROM x) AS p WHERE p.k > 1", {"x": [[1, 1], [2, 1], [2, 3]], "y": [], "z": []}),
+    ("WITH p AS (SELECT x.a AS k, x.b AS v, MAX(x.a) OVER (PARTITION BY x.b) AS w0, COUNT(*) OVER (PARTITION BY x.a, x.b) AS w1 FROM x) SELECT p.v AS c0, p.w0 AS c1, p.w1 AS c2 FROM p WHERE p.v = 1", {"x": [[1, 1], [2, 1], [2, 3]], "y": [], "z": []}),
     # set operations match columns by POSITION: right operand with the same names in another order / swapped aliases
     ("SELECT t.a AS ta FROM (SELECT x.a, x.b FROM x UNION ALL SELECT y.b, y.a FROM y) AS t", {"x": [[1, 2]], "y": [[3, 4]], "z": []}),
     ("SELECT t.b AS tb FROM (SELECT x.a, x.b FROM x UNION ALL SELECT y.b, y.a FROM y) AS t", {"x": [[1, 2]], "y": [[3, 4]], "z": []}),
@@ -1355,6 +1386,28 @@ def shrink(duck: Duck, sql, total, rules, label, db):
     return sql, db
 
 
+def correlation_captured(sql, rules):
+    """root-cause attribution for merge_subqueries' alias capture: the optimized query has FEWER correlated (external)
+    column references inside its subqueries than the qualified original — an outer column was rewritten to a name that
+    a source inside the subquery also has"""
+    sqlglot, exp = sg()
+    from sqlglot.optimizer.scope import traverse_scope
+
+    def ext(tree):
+        n = 0
+        for sc in traverse_scope(tree):
+            if sc.is_subquery or sc.is_correlated_subquery:
+                n += len(sc.external_columns)
+        return n
+
+    try:
+        before = ext(sqlglot.parse_one(optimized_sql(sql, rules[:1]), read="duckdb"))
+        after = ext(sqlglot.parse_one(optimized_sql(sql, rules), read="duckdb"))
+    except Exception:  # noqa
+        return None
+    return True if after < before else None
+
+
 def attribute(duck: Duck, sql, total, rules_all):
     """which single rule (after qualify) already shows the difference — part of the finding's context"""
     for r in rules_all[1:]:
@@ -1400,9 +1453,12 @@ def search(chk: Check, hints: list, budget_s: float) -> None:
                 total2 = total and " ORDER BY " in sql2
                 what = oracle(duck, sql2, total2, rules, label)[0] or res
                 rule = label if label in single_names else attribute(duck, sql2, total2, rules_all)
+                ctx = {"rule": rule}
+                if rule == "merge_subqueries":
+                    ctx["capture"] = correlation_captured(sql2, rules)
                 chk.report_violation(f"{rule}:" + skeleton(sql2), what,
                                      {"sql": sql2, "total_order": total2, "db": db2, "rules": [r.__name__ for r in rules], "label": label},
-                                     context={"rule": rule})
+                                     context=ctx)
                 duck.fresh(db)
                 return True
         return False
@@ -1419,6 +1475,7 @@ def search(chk: Check, hints: list, budget_s: float) -> None:
             consider(sql, False, db, full + singles)
     g = QGen(rng)
     ng = NestGen(rng)
+    wg = WinGen(rng)
     while time.time() - t0 < budget_s and len(chk.violations) < 4:
         db = rand_db(rng)
         duck.fresh(db)
@@ -1430,6 +1487,12 @@ def search(chk: Check, hints: list, budget_s: float) -> None:
                 consider(sql, total, db, cfg)
                 chk.count("search:shape:nested-collision")
                 chk.case(("nest", sql, repr(db)), nontrivial=True, sample={"sql": sql} if tried % 97 == 0 else None)
+                continue
+            if rng.random() < 0.08:
+                sql, total = wg.query()
+                consider(sql, total, db, full + [c for c in singles if c[0] in ("pushdown_predicates", "pushdown_projections", "merge_subqueries")])
+                chk.count("search:shape:multi-window")
+                chk.case(("win", sql, repr(db)), nontrivial=True)
                 continue
             sql, total = g.query()
             cfg = list(full)
